@@ -128,7 +128,9 @@ func drawInjections(r *fw.Rand, src []byte, k int) []string {
 		}
 		id := "c" + string(rune('0'+i))
 		long := strings.Repeat(string(rune('a'+i)), 50+r.Intn(60))
-		out = append(out, fmt.Sprintf("%d|%s", off, fw.Pick(r, []string{"/*" + id + "*/", " /*" + id + "*/ ", "//" + id + "\n", " // " + id + "\n", "#" + id + "\n", "/*" + id + "\n" + id + "*/", "/*" + id + " " + long + "*/", " /* " + id + " " + long + " */ "})))
+		out = append(out, fmt.Sprintf("%d|%s", off, fw.Pick(r, []string{"/*" + id + "*/", " /*" + id + "*/ ", "//" + id + "\n", " // " + id + "\n", "#" + id + "\n", "/*" + id + "\n" + id + "*/", "/*" + id + " " + long + "*/", " /* " + id + " " + long + " */ ",
+			// star-bordered block comments (continuation lines starting with '*' in the first column or after a blank)
+			"/*" + id + "\n* " + id + "\n*/", "/*" + id + "\n * " + id + "\n */", "/**\n** " + id + "\n**/", " /*" + id + "\n*" + id + "*/ "})))
 	}
 	return out
 }
@@ -312,6 +314,10 @@ func (p *cfmt) Run(c fw.Case, r *fw.Rec) {
 			r.Fail(site, "%s", msg)
 			return
 		}
+		if site == "format:comment-glued-to-division-operator" {
+			r.Fail(site, "minimal comment injection %q (at %s) into\n%s\n%s", best, strings.Join(where, "+"), clip(base.Src, 500), msg)
+			return
+		}
 		r.Fail("format:comment-"+strings.Join(where, "+"), "[%s] minimal comment injection %q into\n%s\n%s", site, best, clip(base.Src, 500), msg)
 		return
 	}
@@ -400,6 +406,21 @@ func (p *cfmt) eval(c fw.Case, it srcItem, r *fw.Rec) {
 				site, msg = "format:comment-duplicated", fmt.Sprintf("%d comments in, %d out", len(in), len(got))
 			default:
 				site = "format:comment-reordered-or-altered"
+				// one recognisable root cause: a line comment flushed directly behind a '/' operator (no blank), so
+				// that its text gains a slash
+			}
+			// one recognisable root cause: a comment flushed directly behind a '/' operator (no blank), so that its
+			// text gains a slash (`/` + `//c` = `///c`, `/` + `/*c…` = `//*c`)
+			for _, g := range got {
+				for _, c := range in {
+					first := c
+					if i := strings.IndexByte(c, '\n'); i >= 0 {
+						first = c[:i]
+					}
+					if g == "/"+first || g == "/"+c {
+						site = "format:comment-glued-to-division-operator"
+					}
+				}
 			}
 			r.Fail(site, "%s\n in: %q\nout: %q\n--- input ---\n%s\n--- output ---\n%s", msg, in, got, clip(it.Src, 700), clip(out, 700))
 			return
